@@ -53,6 +53,8 @@ def generate(rng, tier, shard, nshards):
         base = {"sr": srn, "T": T, "sigmaA": sig, "sigmaB": sig, "L": L, "style": st}
         for fn in ("transpose", "project0", "project1"):
             yield aops.event("tsame", dict(base, fn=fn), site=f"FST.{fn}", feat=feat)
+        yield aops.event("tsame", dict(base, fn="prune", keepA=rng.choice([["a", ""], ["a", "b", ""], ["b"]]),
+                                       keepB=rng.choice([["a", "b", ""], ["b", ""], ["a"]])), site="FST.prune_to_alphabet", feat=feat)
         fix = [rng.choice(sig) for _ in range(rng.randint(0, 2))]
         yield aops.event("tsame", dict(base, fn="xsec_in", fix=fix), site="FST(x,None)", feat=feat)
         yield aops.event("tsame", dict(base, fn="xsec_out", fix=fix), site="FST(None,y)", feat=feat)
